@@ -52,10 +52,10 @@ def apply(v: V, root: str):
                 s = fh.read()
         if s.count(old) != count:
             return None
-        s2 = s.replace(old, new)
+        overrides[rel] = s.replace(old, new)
+    for rel, s2 in overrides.items():
         try:
             compile(s2, rel, "exec")
         except SyntaxError as exc:
             raise AssertionError(f"variant {v.name}: does not compile: {exc}")
-        overrides[rel] = s2
     return overrides
